@@ -49,6 +49,19 @@ fn universe(thorough: bool) -> Vec<Request> {
     u
 }
 
+// third universe: backends of one cluster only — the same (backend id, address) added again with other ranking fields
+// (sticky_id / backup rank before the address in Backend's order), siblings sharing a backend id, removals
+fn universe_backends() -> Vec<Request> {
+    let a0 = SocketAddress::new_v4(10, 0, 0, 1, 1001);
+    let a1 = SocketAddress::new_v4(10, 0, 0, 1, 1002);
+    let mut u: Vec<Request> = vec![];
+    for (id, a, sticky, backup) in [("b1", a0, Some("a"), None), ("b1", a1, Some("m"), None), ("b1", a0, Some("z"), None), ("b1", a0, None, Some(true)), ("b2", a0, Some("k"), None), ("b1", a1, None, None)] {
+        u.push(RequestType::AddBackend(AddBackend { cluster_id: "c1".into(), backend_id: id.into(), address: a, sticky_id: sticky.map(|s: &str| s.to_string()), backup, ..Default::default() }).into());
+    }
+    u.push(RequestType::RemoveBackend(RemoveBackend { cluster_id: "c1".into(), backend_id: "b1".into(), address: a1 }).into());
+    u
+}
+
 // second universe: frontends that share a route key (listener, host, path) and differ only in non-key fields
 // (cluster, tags), on an HTTP and an HTTPS listener
 fn universe_fronts() -> Vec<Request> {
@@ -266,6 +279,7 @@ fn main() {
     let (u, u2) = build_universes(thorough);
     let mut all: Vec<ConfigState> = explore_states(&u, depth, cap);
     all.extend(explore_states(&u2, depth + 2, cap));
+    all.extend(explore_states(&universe_backends(), 4, 1500));
     let (mut n, mut nontrivial) = (0u64, 0u64);
     let mut failures: Vec<(String, String)> = vec![];
     let mut shapes: HashSet<String> = HashSet::new();
@@ -309,7 +323,7 @@ fn main() {
         }
     }
     let fjson: Vec<String> = failures.iter().map(|(i, o)| format!("{{\"input\": {i:?}, \"observed\": {o:?}}}")).collect();
-    println!("{{\"bound\": \"every state of two universes explored breadth-first (<= {depth} / {} dispatched requests, capped at {cap} distinct states each), replayed on an empty state through 4 encodings (memory, protobuf InitialState, state file, JSON of the state as in the upgrade payload)\", \"states\": {n}, \"pairs\": {}, \"nontrivial_pairs\": {nontrivial}, \"failures\": [{}]}}", depth + 2, n * 4, fjson.join(", "));
+    println!("{{\"bound\": \"every state of two universes explored breadth-first (<= {depth} / {} dispatched requests, capped at {cap} distinct states each) and of a backend-upsert universe (<= 4 requests), replayed on an empty state through 4 encodings (memory, protobuf InitialState, state file, JSON of the state as in the upgrade payload)\", \"states\": {n}, \"pairs\": {}, \"nontrivial_pairs\": {nontrivial}, \"failures\": [{}]}}", depth + 2, n * 4, fjson.join(", "));
 }
 
 fn tempfile() -> std::io::Result<std::fs::File> {
